@@ -516,3 +516,183 @@ class C14(FaultMonitorMixin, BaseMonitor):
 
 
 MONITORS["C14"] = C14
+
+
+# ---------------------------------------------------------------------------------------------------
+# C15
+
+def crash_site(exc):
+    """Innermost update_<attr> frame of the library in the traceback: 'Class.update_x' (or None)."""
+    tb = exc.__traceback__
+    site = None
+    while tb is not None:
+        code = tb.tb_frame.f_code
+        if code.co_name.startswith("update_") and "/efootprint/" in code.co_filename:
+            self_ = tb.tb_frame.f_locals.get("self")
+            site = f"{type(self_).__name__ if self_ is not None else '?'}.{code.co_name}"
+        tb = tb.tb_next
+    return site
+
+
+class C15(FaultMonitorMixin, BaseMonitor):
+    """A failed recomputation can always be recovered from."""
+    prop = "C15"
+
+    def __init__(self, sim, k, cfg, res, opts):
+        super().__init__(sim, k, cfg, res, opts)
+        self.broken = []            # [(revert op, site)] in failure order
+        self.extra_while_broken = 0
+        self.episodes = 0
+        self.recovering = False
+
+    @staticmethod
+    def spec_generator(k, cfg, index):
+        cfg["deleting_jobs"] = False
+        if index % 3 == 0:
+            cfg["builders"] = True
+        return gen.gen_spec(k, cfg)
+
+    def revert_op_for(self, op):
+        spec = self.sim.spec
+        if op["op"] == "group":
+            return {"op": "group", "revert": True, "changes": [
+                {"obj": ch["obj"], "attr": ch["attr"], "value": copy.deepcopy(spec["objs"][ch["obj"]]["attrs"][ch["attr"]]),
+                 "src": spec["objs"][ch["obj"]].get("src", {}).get(ch["attr"])} for ch in op["changes"]]}
+        if op["op"] == "set":
+            return {"op": "set", "revert": True, "obj": op["obj"], "attr": op["attr"],
+                    "value": copy.deepcopy(spec["objs"][op["obj"]]["attrs"][op["attr"]]),
+                    "src": spec["objs"][op["obj"]].get("src", {}).get(op["attr"])}
+        return None
+
+    def next_op(self, i):
+        r = self.k.rng("op", i)
+        spec = self.sim.spec
+        if self.broken:
+            if not self.recovering and self.extra_while_broken < 3 and r.random() < 0.45:
+                self.extra_while_broken += 1
+                if r.random() < 0.5:
+                    cands = faults.failing_edits(self.sim, r)
+                    cands = [c for c in cands if self.revert_key(c) not in {self.revert_key(b[0]) for b in self.broken}]
+                    if cands:
+                        op = r.choice(cands)
+                        op["i"] = i
+                        return op
+                op = opgen.gen_numeric(r, spec, self.cfg, set(S.closure(spec)), i)
+                if op is not None and self.revert_key(op) not in {self.revert_key(b[0]) for b in self.broken}:
+                    op["i"] = i
+                    op["while_broken"] = True
+                    return op
+            self.recovering = True
+            idx = r.randrange(len(self.broken))
+            op = dict(self.broken[idx][0])
+            op["i"] = i
+            op["broken_index"] = idx
+            return op
+        p_fault = max(0.25, self.cfg.get("fault_rate", 0.2))
+        if r.random() < p_fault:
+            cands = faults.failing_edits(self.sim, r)
+            if cands:
+                sites = sorted({c["expect_site"] for c in cands})
+                site = r.choice(sites)               # uniform over crash sites first, then over triggering inputs
+                op = r.choice([c for c in cands if c["expect_site"] == site])
+                op["i"] = i
+                return op
+        mix = [(opgen.gen_numeric, 40), (opgen.gen_categorical, 8), (opgen.gen_hourly, 8), (opgen.gen_link, 10),
+               (opgen.gen_list_assign, 8), (opgen.gen_list_op, 8), (opgen.gen_group, 5), (opgen.gen_add_job, 4)]
+        return opgen.gen_edit(r, spec, self.cfg, i, mix=mix)
+
+    @staticmethod
+    def revert_key(op):
+        if op["op"] == "group":
+            return tuple(sorted((ch["obj"], ch["attr"]) for ch in op["changes"]))
+        return ((op.get("obj"), op.get("attr")),)
+
+    def step(self, i, op):
+        sim = self.sim
+        if op.get("revert"):
+            status, ret = self.execute(op)
+            idx = op.get("broken_index", 0)
+            if status == "ok":
+                if idx < len(self.broken):
+                    self.broken.pop(idx)
+                self.attempts_without_progress = 0
+                self.res.count("reverts_ok")
+                if not self.broken:
+                    self.recovering = False
+                    self.extra_while_broken = 0
+                    self.episodes += 1
+                    self.res.count("recoveries_completed")
+                    oracle = "not_restored_after_revert"
+                    if getattr(self, "failed_revert_in_episode", False):
+                        # a re-assignment of a previous value raised earlier in this episode (another failure was
+                        # still installed) and was retried
+                        oracle = "not_restored_after_retried_revert"
+                    self.failed_revert_in_episode = False
+                    self.compare_with_reference(i, op, "C15", oracle)
+                return "ok"
+            if status == "hang":
+                raise Violation("C15", "hang", {ret.site}, f"re-assigning the previous value does not return in {ret.site}",
+                                i, op_kind(op))
+            if status == "skip":
+                self.broken.pop(idx) if idx < len(self.broken) else None
+                return "skip"
+            self.res.count("revert_raised_while_others_broken" if len(self.broken) > 1 else "revert_raised")
+            self.failed_revert_in_episode = True
+            self.attempts_without_progress = getattr(self, "attempts_without_progress", 0) + 1
+            site = crash_site(ret) or type(ret).__name__
+            if len(self.broken) == 1 or self.attempts_without_progress > 3 * len(self.broken) + 3:
+                raise Violation("C15", "unrecoverable", {site},
+                                f"re-assigning the previous value of {self.revert_key(op)} raises "
+                                f"{type(ret).__name__}: {str(ret)[:160]} (failed inputs still installed: "
+                                f"{[self.revert_key(b[0]) for b in self.broken]})", i, op_kind(op))
+            return "raised"
+        revert = self.revert_op_for(op)
+        status, ret = self.execute(op)
+        if status == "skip":
+            return "skip"
+        if status == "hang":
+            if op.get("fault"):
+                raise Violation("C15", "hang", {ret.site}, f"failing edit does not return in {ret.site}", i, op_kind(op))
+            self.stop = "hang_in_plain_edit"
+            return "hang"
+        if status == "raised":
+            site = crash_site(ret)
+            if site is None:
+                # refused by validation (nothing installed since the D4 repair) or crashed outside update functions
+                self.res.count("raised_outside_update_functions:" + type(ret).__name__)
+                if self.broken:
+                    # a refusal while broken: nothing to revert for this op
+                    return "refused"
+                self.stop = "op_raised_outside_update"
+                return "raised"
+            self.res.count("fault:" + site)
+            self.res.count("crash_exception:" + type(ret).__name__)
+            if revert is not None:
+                self.broken.append((revert, site))
+            else:
+                self.stop = "unrevertable_op_failed"
+            return "failed"
+        if op.get("fault"):
+            self.res.count("fault_did_not_fire:" + op.get("expect_site", "?"))
+        if not self.broken:
+            self.compare_with_reference(i, op, "C15", "edit_after_recovery_deviates" if self.episodes else "edit_deviates")
+        return "ok"
+
+    def on_end(self):
+        # a run must not end while broken: recover now (in failure order, then retries)
+        sim = self.sim
+        guard = 0
+        while self.broken and guard < 4 * len(self.broken) + 4:
+            guard += 1
+            revert, site = self.broken[0]
+            op = dict(revert)
+            op["i"] = len(self.res.ops)
+            op["broken_index"] = 0
+            self.res.ops.append(op)
+            st = self.step(op["i"], op)
+            self.res.events.append((op["i"], op_kind(op), st))
+            if st == "raised":
+                self.broken.append(self.broken.pop(0))
+
+
+MONITORS["C15"] = C15
